@@ -45,59 +45,55 @@ theorem Num.le_refl (a : Num) (ha : a.isNan = false) : Num.le a a = true := by
 
 /-! ## Min / Max -/
 
-/-- **Min.** For all non-NaN bounds and values (ints, floats, ±inf; both settings of `include_boundary`):
+/-- **Min.** For all bounds and values (ints, floats, ±inf, NaN; both settings of `include_boundary`):
     accepted ⇔ `bound ≤ v` (resp. `bound < v`); an accepted value is returned unchanged; every rejection is
-    `ValidatorException`. -/
-theorem min_exact (b v : Num) (incl : Bool) (hb : b.isNan = false) (hv : v.isNan = false) :
+    `ValidatorException`.  NaN (as value or as bound) satisfies no comparison and is rejected - since the repair of
+    finding `minMaxNaN` the code tests `not value >= bound`, so no NaN guard is needed any more. -/
+theorem min_exact (b v : Num) (incl : Bool) :
     (minValidate b incl v = .ok v ↔ minPred b v incl = true) ∧
     (∀ r, minValidate b incl v = .ok r → r = v) ∧
     (∀ e, minValidate b incl v = .raises e → e = .validator) ∧
     (minPred b v incl = false → minValidate b incl v = .raises .validator) := by
-  have h1 := Num.lt_eq_not_le v b hv hb
-  have h2 := Num.le_eq_not_lt v b hv hb
-  simp only [minValidate, minPred, raiseExceptionClass, Num.gt, Num.ge, h1, h2]
-  cases incl <;> cases Num.le b v <;> cases Num.lt b v <;> simp
+  rcases Bool.eq_false_or_eq_true (Num.le b v) with h1 | h1 <;> rcases Bool.eq_false_or_eq_true (Num.lt b v) with h2 | h2 <;>
+    cases incl <;> simp [minValidate, minPred, raiseExceptionClass, Num.gt, Num.ge, h1, h2]
 
-/-- **Max.** accepted ⇔ `v ≤ bound` (resp. `v < bound`). -/
-theorem max_exact (b v : Num) (incl : Bool) (hb : b.isNan = false) (hv : v.isNan = false) :
+/-- **Max.** accepted ⇔ `v ≤ bound` (resp. `v < bound`), NaN included. -/
+theorem max_exact (b v : Num) (incl : Bool) :
     (maxValidate b incl v = .ok v ↔ maxPred b v incl = true) ∧
     (∀ r, maxValidate b incl v = .ok r → r = v) ∧
     (∀ e, maxValidate b incl v = .raises e → e = .validator) ∧
     (maxPred b v incl = false → maxValidate b incl v = .raises .validator) := by
-  have h1 := Num.lt_eq_not_le b v hb hv
-  have h2 := Num.le_eq_not_lt b v hb hv
-  simp only [maxValidate, maxPred, raiseExceptionClass, Num.gt, Num.ge, h1, h2]
-  cases incl <;> cases Num.le v b <;> cases Num.lt v b <;> simp
+  rcases Bool.eq_false_or_eq_true (Num.le v b) with h1 | h1 <;> rcases Bool.eq_false_or_eq_true (Num.lt v b) with h2 | h2 <;>
+    cases incl <;> simp [maxValidate, maxPred, raiseExceptionClass, Num.gt, Num.ge, h1, h2]
 
 /-- boundary: the value equal to the bound is accepted with `include_boundary` … -/
 theorem min_boundary_incl (b : Num) (hb : b.isNan = false) : minValidate b true b = .ok b := by
-  have := (min_exact b b true hb hb).1; simp [minPred, Num.le_refl b hb] at this; exact this
+  have := (min_exact b b true).1; simp [minPred, Num.le_refl b hb] at this; exact this
 theorem max_boundary_incl (b : Num) (hb : b.isNan = false) : maxValidate b true b = .ok b := by
-  have := (max_exact b b true hb hb).1; simp [maxPred, Num.le_refl b hb] at this; exact this
+  have := (max_exact b b true).1; simp [maxPred, Num.le_refl b hb] at this; exact this
 /-- … and rejected (with ValidatorException) without it -/
 theorem Num.lt_irrefl (b : Num) : Num.lt b b = false := by
   cases b <;> simp [Num.lt]
-theorem min_boundary_excl (b : Num) (hb : b.isNan = false) : minValidate b false b = .raises .validator :=
-  (min_exact b b false hb hb).2.2.2 (by simp [minPred, Num.lt_irrefl])
-theorem max_boundary_excl (b : Num) (hb : b.isNan = false) : maxValidate b false b = .raises .validator :=
-  (max_exact b b false hb hb).2.2.2 (by simp [maxPred, Num.lt_irrefl])
+theorem min_boundary_excl (b : Num) : minValidate b false b = .raises .validator :=
+  (min_exact b b false).2.2.2 (by simp [minPred, Num.lt_irrefl])
+theorem max_boundary_excl (b : Num) : maxValidate b false b = .raises .validator :=
+  (max_exact b b false).2.2.2 (by simp [maxPred, Num.lt_irrefl])
 
-/-- the full statement (no NaN guard) … -/
+/-- the full statement (no NaN guard) holds -/
 def min_exact_full : Prop := ∀ (b v : Num) (incl : Bool), minValidate b incl v = .ok v ↔ minPred b v incl = true
 def max_exact_full : Prop := ∀ (b v : Num) (incl : Bool), maxValidate b incl v = .ok v ↔ maxPred b v incl = true
-/-- … is false: NaN passes every Min and Max, because both comparisons of the code are false (finding `minMaxNaN`) -/
-theorem min_nan_witness : minValidate (.fin 5 1) true .nan = .ok .nan ∧ minPred (.fin 5 1) .nan true = false := by decide
-theorem max_nan_witness : maxValidate (.fin 5 1) false .nan = .ok .nan ∧ maxPred (.fin 5 1) .nan false = false := by decide
-theorem min_nan_bound_witness : minValidate .nan true (.fin 3 1) = .ok (.fin 3 1) ∧ minPred .nan (.fin 3 1) true = false := by decide
-theorem min_exact_full_fails : ¬ min_exact_full := fun h => by
-  have := (h (.fin 5 1) .nan true).1 min_nan_witness.1; simp [minPred, Num.le] at this
-theorem max_exact_full_fails : ¬ max_exact_full := fun h => by
-  have := (h (.fin 5 1) .nan false).1 max_nan_witness.1; simp [maxPred, Num.lt] at this
-
-def Val.notNan (v : Val) : Bool := match v.toNum with | some x => !x.isNan | Option.none => true
+theorem min_exact_full_holds : min_exact_full := fun b v incl => (min_exact b v incl).1
+theorem max_exact_full_holds : max_exact_full := fun b v incl => (max_exact b v incl).1
+/-- NaN is rejected by every Min and Max, as value and as bound (was finding `minMaxNaN`, fixed) -/
+theorem min_rejects_nan (b : Num) (incl : Bool) : minValidate b incl .nan = .raises .validator :=
+  (min_exact b .nan incl).2.2.2 (by cases b <;> cases incl <;> simp [minPred, Num.le, Num.lt])
+theorem max_rejects_nan (b : Num) (incl : Bool) : maxValidate b incl .nan = .raises .validator :=
+  (max_exact b .nan incl).2.2.2 (by cases b <;> cases incl <;> simp [maxPred, Num.le, Num.lt])
+theorem min_nan_bound_rejects (v : Num) (incl : Bool) : minValidate .nan incl v = .raises .validator :=
+  (min_exact .nan v incl).2.2.2 (by cases v <;> cases incl <;> simp [minPred, Num.le, Num.lt])
 
 /-- the validators on Python values meet the executable specification the driver reports -/
-theorem vMin_meets_spec (bound v : Val) (incl : Bool) (hb : bound.notNan = true) (hv : v.notNan = true) :
+theorem vMin_meets_spec (bound v : Val) (incl : Bool) :
     match specMin bound incl v with
     | .accept r _ => vMin bound incl v = .ok r
     | .reject => vMin bound incl v = .raises .validator
@@ -105,14 +101,12 @@ theorem vMin_meets_spec (bound v : Val) (incl : Bool) (hb : bound.notNan = true)
   unfold specMin vMin
   cases hb' : bound.toNum <;> cases hv' : v.toNum <;> simp only []
   rename_i b x
-  have hbn : b.isNan = false := by simpa [Val.notNan, hb'] using hb
-  have hxn : x.isNan = false := by simpa [Val.notNan, hv'] using hv
-  have h := min_exact b x incl hbn hxn
+  have h := min_exact b x incl
   cases hp : minPred b x incl
   · simp [h.2.2.2 hp, liftNum]
   · simp [h.1.2 hp, liftNum]
 
-theorem vMax_meets_spec (bound v : Val) (incl : Bool) (hb : bound.notNan = true) (hv : v.notNan = true) :
+theorem vMax_meets_spec (bound v : Val) (incl : Bool) :
     match specMax bound incl v with
     | .accept r _ => vMax bound incl v = .ok r
     | .reject => vMax bound incl v = .raises .validator
@@ -120,9 +114,7 @@ theorem vMax_meets_spec (bound v : Val) (incl : Bool) (hb : bound.notNan = true)
   unfold specMax vMax
   cases hb' : bound.toNum <;> cases hv' : v.toNum <;> simp only []
   rename_i b x
-  have hbn : b.isNan = false := by simpa [Val.notNan, hb'] using hb
-  have hxn : x.isNan = false := by simpa [Val.notNan, hv'] using hv
-  have h := max_exact b x incl hbn hxn
+  have h := max_exact b x incl
   cases hp : maxPred b x incl
   · simp [h.2.2.2 hp, liftNum]
   · simp [h.1.2 hp, liftNum]
